@@ -461,3 +461,188 @@ Proof.
     apply nth_error_In in Hn. destruct (Hall i0 a0 Hn) as [e He]. congruence.
   - split; [intro H; inversion H; auto | intros (-> & _); reflexivity].
 Qed.
+
+(* ------------------------------------------------------------------ strip_prefix / strip_suffix *)
+
+Definition strip_op (s : side) (a : list Z) : Parser.pop :=
+  match s with AtStart => Parser.OStripPrefix a | AtEnd => Parser.OStripSuffix a end.
+Definition dir_of (s : side) : Parser.pdir :=
+  match s with AtStart => Parser.FromStart | AtEnd => Parser.FromEnd end.
+
+(** [Parser::strip_prefix(a)] / [strip_suffix(a)] returns Ok *)
+Definition strip_ok (s : side) (P : Parser.parser) (a : list Z) : Prop :=
+  exists Q, Parser.step P (strip_op s a) = Parser.POk Parser.VNone Q.
+
+Definition after_strip (s : side) (P : Parser.parser) (a r : list Z) : Parser.parser :=
+  match s with
+  | AtStart => Parser.mk_parser Parser.FromStart (Parser.p_yls P) (Parser.p_start P + zlen a) r
+  | AtEnd => Parser.mk_parser Parser.FromEnd (Parser.p_yls P) (Parser.p_start P) r
+  end.
+
+Lemma step_strip_ok s P a Q : fits_for s P ->
+  (Parser.step P (strip_op s a) = Parser.POk Parser.VNone Q <->
+   exists r, splits (end_of s) a (Parser.p_str P) r /\ Q = after_strip s P a r).
+Proof.
+  intro Hf. destruct s; cbn [strip_op end_of splits after_strip fits_for] in *.
+  - rewrite step_strip_prefix. split.
+    + destruct (strip_prefix_m (Parser.p_str P) a) as [r|] eqn:E; [|discriminate].
+      apply strip_prefix_m_spec in E. intro H; inversion H; subst Q. exists r. split; [exact E|].
+      apply (start_to_eq P a r Hf E).
+    + intros (r & E & ->). pose proof (proj2 (strip_prefix_m_spec _ _ _) E) as E'. rewrite E'.
+      now rewrite (start_to_eq P a r Hf E).
+  - rewrite step_strip_suffix. split.
+    + destruct (strip_suffix_m (Parser.p_str P) a) as [r|] eqn:E; [|discriminate].
+      apply strip_suffix_m_spec in E. intro H; inversion H; subst Q. now exists r.
+    + intros (r & E & ->). pose proof (proj2 (strip_suffix_m_spec _ _ _) E) as E'. now rewrite E'.
+Qed.
+
+Lemma abs_after_strip s P a r : splits (end_of s) a (Parser.p_str P) r ->
+  P_strip (end_of s) (abs P) a (abs (after_strip s P a r)).
+Proof. intro E. destruct s; cbn [end_of splits P_strip after_strip] in *; exists r; split; [exact E | reflexivity | exact E | reflexivity]. Qed.
+
+(** the list-vocabulary [P_strip] of Spec/ParserChain.v is the executable method *)
+Lemma P_strip_step s P a q : fits_for s P ->
+  (P_strip (end_of s) (abs P) a q <->
+   exists Q, Parser.step P (strip_op s a) = Parser.POk Parser.VNone Q /\ q = abs Q).
+Proof.
+  intro Hf. split.
+  - intro H. assert (Hs : exists r, splits (end_of s) a (Parser.p_str P) r).
+    { destruct s; cbn [end_of P_strip splits] in *; destruct H as (r & E & _); now exists r. }
+    destruct Hs as [r Hr]. exists (after_strip s P a r). split.
+    + apply (step_strip_ok s P a _ Hf). now exists r.
+    + eapply P_strip_fun; [exact H | now apply abs_after_strip].
+  - intros (Q & Hs & ->). apply (step_strip_ok s P a Q Hf) in Hs. destruct Hs as (r & Hr & ->).
+    now apply abs_after_strip.
+Qed.
+
+Lemma strip_ok_P_strip s P a : fits_for s P ->
+  ((exists q', P_strip (end_of s) (abs P) a q') <-> strip_ok s P a).
+Proof.
+  intro Hf. unfold strip_ok. split.
+  - intros (q' & H). apply (P_strip_step s P a q' Hf) in H. destruct H as (Q & H & _). now exists Q.
+  - intros (Q & H). exists (abs Q). apply (P_strip_step s P a _ Hf). now exists Q.
+Qed.
+
+Lemma strip_ok_matches s P a : fits_for s P -> (strip_ok s P a <-> matches (end_of s) a (Parser.p_str P)).
+Proof.
+  intro Hf. rewrite <- (strip_ok_P_strip s P a Hf). apply (P_strip_matches (end_of s) (abs P) a).
+Qed.
+
+(** strip_eq_chain on Model.Parser: the if-else chain of strip_prefix (strip_suffix) calls *)
+Lemma strip_macro_step_some s brs P i q :
+  fits_for s P -> str_shape (Parser.p_str P) -> arms_shaped (arms_of brs) ->
+  (strip_macro s brs (abs P) = (Some i, q) <->
+   exists j a Q, first_listed (strip_ok s P) (arms_of brs) j i a /\
+                 Parser.step P (strip_op s a) = Parser.POk Parser.VNone Q /\ q = abs Q).
+Proof.
+  intros Hf Hp Ha. rewrite (strip_macro_some s brs (abs P) i q Hp Ha). split.
+  - intros (j & a & Hfl & Hq). apply (P_strip_step s P a q Hf) in Hq. destruct Hq as (Q & Hs & ->).
+    exists j, a, Q. split; [|now split].
+    eapply first_listed_ext; [|exact Hfl]. intro x. symmetry. apply (strip_ok_P_strip s P x Hf).
+  - intros (j & a & Q & Hfl & Hs & ->). exists j, a. split.
+    + eapply first_listed_ext; [|exact Hfl]. intro x. apply (strip_ok_P_strip s P x Hf).
+    + apply (P_strip_step s P a _ Hf). now exists Q.
+Qed.
+
+Lemma strip_macro_step_none s brs P q :
+  fits_for s P ->
+  (strip_macro s brs (abs P) = (None, q) <-> q = abs P /\ none_listed (strip_ok s P) (arms_of brs)).
+Proof.
+  intro Hf. rewrite (strip_macro_none s brs (abs P) q).
+  assert (H : none_listed (fun a => exists q', P_strip (end_of s) (abs P) a q') (arms_of brs) <->
+              none_listed (strip_ok s P) (arms_of brs)).
+  { apply none_listed_ext. intro x. apply (strip_ok_P_strip s P x Hf). }
+  now rewrite H.
+Qed.
+
+(* ------------------------------------------------------------------ trim_start_matches / trim_end_matches *)
+
+(** the loop of Parser calls a trim form stands for:
+      loop { if      let Ok(q) = p.strip_prefix(A0) { if A0.is_empty() {break}; p = q }
+             else if let Ok(q) = p.strip_prefix(A1) { if A1.is_empty() {break}; p = q }
+             ..
+             else { break } }
+      p.parse_direction = FromStart;
+    (strip_suffix / FromEnd for trim_end_matches) *)
+Inductive trim_chain (s : side) (arms : arm_list) : Parser.parser -> Parser.parser -> Prop :=
+| tc_none P :
+    none_listed (strip_ok s P) arms -> trim_chain s arms P (Parser.set_dir P (dir_of s))
+| tc_empty P j i :
+    first_listed (strip_ok s P) arms j i [] -> trim_chain s arms P (Parser.set_dir P (dir_of s))
+| tc_step P j i a Q out :
+    first_listed (strip_ok s P) arms j i a -> a <> [] ->
+    Parser.step P (strip_op s a) = Parser.POk Parser.VNone Q ->
+    trim_chain s arms Q out -> trim_chain s arms P out.
+
+Lemma abs_set_dir s P : abs (Parser.set_dir P (dir_of s)) = cut s (abs P) (Parser.p_str P).
+Proof. destruct s; unfold abs, cut; cbn; [f_equal; lia | reflexivity]. Qed.
+
+Lemma fits_after_strip s P a r : fits_for s P -> splits (end_of s) a (Parser.p_str P) r ->
+  fits_for s (after_strip s P a r).
+Proof.
+  destruct s; cbn [fits_for end_of splits after_strip]; [|auto]. intros [H0 H1] E.
+  rewrite E, zlen_app in H1. unfold fits. cbn. pose proof (zlen_nonneg a). lia.
+Qed.
+
+Lemma cut_after_strip s P a r x : splits (end_of s) a (Parser.p_str P) r ->
+  cut s (abs (after_strip s P a r)) x = cut s (abs P) x.
+Proof.
+  destruct s; cbn [end_of splits after_strip]; intro E; unfold cut, abs; cbn; [|reflexivity].
+  rewrite E, zlen_app. f_equal. lia.
+Qed.
+
+Lemma trim_chain_sound s arms P Q : trim_chain s arms P Q -> fits_for s P ->
+  trims (end_of s) arms (Parser.p_str P) (Parser.p_str Q) /\ abs Q = cut s (abs P) (Parser.p_str Q).
+Proof.
+  induction 1 as [P Hn | P j i Hfl | P j i a Q out Hfl Hne Hs _ IH]; intro Hf.
+  - change (Parser.p_str (Parser.set_dir P (dir_of s))) with (Parser.p_str P).
+    split; [|apply abs_set_dir]. apply trims_none.
+    eapply none_listed_ext; [|exact Hn]. intro x. symmetry. apply (strip_ok_matches s P x Hf).
+  - change (Parser.p_str (Parser.set_dir P (dir_of s))) with (Parser.p_str P).
+    split; [|apply abs_set_dir]. apply (trims_empty _ _ _ j i).
+    eapply first_listed_ext; [|exact Hfl]. intro x. symmetry. apply (strip_ok_matches s P x Hf).
+  - apply (step_strip_ok s P a Q Hf) in Hs. destruct Hs as (r & Hr & ->).
+    destruct (IH (fits_after_strip s P a r Hf Hr)) as [IH1 IH2].
+    rewrite (cut_after_strip s P a r _ Hr) in IH2. split; [|exact IH2].
+    apply (trims_step _ _ _ j i a r); [|exact Hne|exact Hr|].
+    + eapply first_listed_ext; [|exact Hfl]. intro x. symmetry. apply (strip_ok_matches s P x Hf).
+    + destruct s; exact IH1.
+Qed.
+
+Lemma trim_chain_complete s arms bytes out : trims (end_of s) arms bytes out ->
+  forall P, Parser.p_str P = bytes -> fits_for s P ->
+  exists Q, trim_chain s arms P Q /\ Parser.p_str Q = out.
+Proof.
+  induction 1 as [bytes Hn | bytes j i Hfl | bytes j i a r out Hfl Hne Hr _ IH]; intros P EP Hf; subst bytes.
+  - exists (Parser.set_dir P (dir_of s)). split; [|reflexivity]. apply tc_none.
+    eapply none_listed_ext; [|exact Hn]. intro x. apply (strip_ok_matches s P x Hf).
+  - exists (Parser.set_dir P (dir_of s)). split; [|reflexivity]. apply (tc_empty _ _ _ j i).
+    eapply first_listed_ext; [|exact Hfl]. intro x. apply (strip_ok_matches s P x Hf).
+  - destruct (IH (after_strip s P a r)) as (Q & HQ & EQ);
+      [destruct s; reflexivity | now apply fits_after_strip |].
+    exists Q. split; [|exact EQ]. apply (tc_step _ _ _ j i a (after_strip s P a r)); [|exact Hne| |exact HQ].
+    + eapply first_listed_ext; [|exact Hfl]. intro x. apply (strip_ok_matches s P x Hf).
+    + apply (step_strip_ok s P a _ Hf). now exists r.
+Qed.
+
+(** trim_eq_chain: the parser after the trim form is the parser after the loop *)
+Lemma trim_macro_chain s alts P q :
+  fits_for s P -> str_shape (Parser.p_str P) -> arms_shaped (arms_of [alts]) ->
+  (trim_macro s alts (abs P) = Some q <->
+   exists Q, trim_chain s (arms_of [alts]) P Q /\ q = abs Q).
+Proof.
+  intros Hf Hp Ha. destruct (trim_macro_cut s alts (abs P) Hp Ha) as (out & Ht & E). rewrite E.
+  cbn [abs p_rem] in Ht. split.
+  - intro H; inversion H; subst q.
+    destruct (trim_chain_complete s _ _ _ Ht P eq_refl Hf) as (Q & HQ & EQ).
+    exists Q. split; [exact HQ|]. destruct (trim_chain_sound s _ P Q HQ Hf) as [_ EA]. now rewrite EA, EQ.
+  - intros (Q & HQ & ->). destruct (trim_chain_sound s _ P Q HQ Hf) as [Ht' EA].
+    rewrite (trims_functional _ _ _ _ _ Ht Ht'). now rewrite EA.
+Qed.
+
+(** the loop always terminates with a parser *)
+Lemma trim_chain_total s arms P : fits_for s P -> exists Q, trim_chain s arms P Q.
+Proof.
+  intro Hf. destruct (trims_total (end_of s) arms (S (length (Parser.p_str P))) (Parser.p_str P) ltac:(lia)) as [out Ht].
+  destruct (trim_chain_complete s arms _ _ Ht P eq_refl Hf) as (Q & HQ & _). now exists Q.
+Qed.
